@@ -103,7 +103,7 @@ fn check_pair(x: &dyn Tab, mx: &Tt, y: &dyn Tab, my: &Tt, what: &str) -> Result<
     Ok(())
 }
 
-fn run(c: &Case) -> Verdict {
+pub fn run(c: &Case) -> Verdict {
     let fam = c.fam;
     let f = fam.get();
     let n = c.h.n;
@@ -337,7 +337,7 @@ pub fn def() -> PropDef {
                 name: "steps",
                 rule: "1-2 step histories from arbitrary well-formed tables",
                 strategy: strategy_steps,
-                cases: (60_000, 2_000_000),
+                cases: (300_000, 3_000_000),
                 exhaustive: Some(enumerate),
                 exhaustive_note: "all tables of n<=2 and every 5th (quick) / all (thorough) of n=3 x every unary op and argument, both families",
                 run,
@@ -355,7 +355,7 @@ pub fn def() -> PropDef {
                 name: "histories",
                 rule: "long histories",
                 strategy: strategy_hist,
-                cases: (8_000, 400_000),
+                cases: (40_000, 600_000),
                 exhaustive: None,
                 exhaustive_note: "",
                 run,
